@@ -30,6 +30,7 @@ import (
 	"rgverif/internal/common"
 	"rgverif/internal/evidence"
 	"rgverif/internal/findings"
+	"rgverif/internal/inproc"
 	"rgverif/internal/model"
 	"rgverif/internal/respc"
 )
@@ -126,25 +127,26 @@ type ledger struct {
 }
 
 type workload struct {
-	c        *cluster.Cluster
-	ops      []porcupine.Operation
-	opsMu    sync.Mutex
-	led      *ledger
-	start    time.Time
-	stop     int32
-	nextID   int64
-	done     int64
-	timeouts int64
-	tagBad   int64
-	perNode  map[int]int64
-	pnMu     sync.Mutex
-	pace     time.Duration // pause after every acknowledged operation (keeps the log short, so that restarts replay quickly)
-	noLists  bool          // never create list values (a snapshot of a list kills the node: KF-C08-01 would hide everything else)
-	retry    time.Duration // pause before reconnecting (default 200 ms)
-	simple   bool          // only commands whose reply identifies the command (tagged PING, counter, own list, own register)
-	readers  int           // read-only clients per node (they never wait for a write of their own, so a node that answers reads by itself keeps answering them while cut off)
-	rate     float64       // if > 0: operations started per second over all clients (a node re-applies its whole log on restart and logs quadratically, so the log length bounds the recovery time)
-	issued   int64
+	c         *cluster.Cluster
+	ops       []porcupine.Operation
+	opsMu     sync.Mutex
+	led       *ledger
+	start     time.Time
+	stop      int32
+	nextID    int64
+	done      int64
+	timeouts  int64
+	tagBad    int64
+	perNode   map[int]int64
+	pnMu      sync.Mutex
+	pace      time.Duration // pause after every acknowledged operation (keeps the log short, so that restarts replay quickly)
+	noLists   bool          // never create list values (a snapshot of a list kills the node: KF-C08-01 would hide everything else)
+	retry     time.Duration // pause before reconnecting (default 200 ms)
+	simple    bool          // only commands whose reply identifies the command (tagged PING, counter, own list, own register)
+	opTimeout time.Duration // how long a client waits for a reply before it is retired (default 4 s, every third client 10 s)
+	readers   int           // read-only clients per node (they never wait for a write of their own, so a node that answers reads by itself keeps answering them while cut off)
+	rate      float64       // if > 0: operations started per second over all clients (a node re-applies its whole log on restart and logs quadratically, so the log length bounds the recovery time)
+	issued    int64
 }
 
 func (w *workload) now() int64 { return time.Since(w.start).Nanoseconds() }
@@ -226,6 +228,9 @@ func (w *workload) client(node int, seed int64, wg *sync.WaitGroup, readOnly boo
 		cl.Timeout = 4 * time.Second
 		if id%3 == 0 {
 			cl.Timeout = 10 * time.Second // patient clients: an operation that commits late is acknowledged to them
+		}
+		if w.opTimeout > 0 {
+			cl.Timeout = w.opTimeout
 		}
 		logKey := fmt.Sprintf("log:%d", id)
 		ownKey := fmt.Sprintf("own:%d", id)
@@ -492,6 +497,21 @@ func quiesceOn(c *cluster.Cluster, led *ledger, tag string, limit time.Duration,
 				return false, "node exited"
 			}
 		}
+		// positive evidence of a wedged node: its apply loop (the one goroutine that executes committed commands)
+		// parked on a channel send - a result nobody is waiting for - while the process is alive
+		for _, nd := range nodes {
+			if nd.Srv == nil || nd.Srv.Exited() {
+				continue
+			}
+			dump := nd.Srv.Dump() // (ends the process)
+			for _, g := range strings.Split(dump, "\n\n") {
+				if strings.Contains(g, "server.handleClusterCommits") && strings.Contains(g, "[chan send") {
+					report(witness{Kind: "apply-loop-wedged", Detail: fmt.Sprintf("%s: node %d is alive but serves no write within the bound; its apply loop is parked handing a result to a connection that is not waiting for one (a committed command nobody asked for at this moment, e.g. a second copy):\n%s", tag, nd.ID, inproc.TopFrames(g, 8)),
+						Sig: "apply-loop-wedged|" + tag})
+					return false, "apply loop wedged"
+				}
+			}
+		}
 		return false, "cluster did not serve writes within the bound"
 	}
 	// barrier: one write acknowledged through every node, so each node has applied everything acknowledged before
@@ -600,6 +620,8 @@ func diffLines(a, b string) string {
 
 type stats struct {
 	scenarios, ops, open, nemesis, restarts, decided, unknown int
+	droppedProposals                                          int // ... of which carried a forwarded client command
+	droppedResponses                                          int // peer-to-peer POSTs delivered whose response the lossy-posts nemesis dropped
 	cutoffAcks                                                int // operations a cut-off former leader still acknowledged (reads, if it serves them itself)
 	leaderTerms                                               int // (term, leader) announcements read from the nodes' raft logs
 	kinds                                                     map[string]int
@@ -1075,6 +1097,7 @@ func main() {
 		extra("votes", o.Pick(3, 9), func(idx int, local *stats) string { return scenarioVotes(o, idx, local) })
 		extra("storm", o.Pick(1, 3), func(idx int, local *stats) string { return scenarioStorm(o, idx, local, "c07") })
 		extra("deposed-tail", o.Pick(1, 4), func(idx int, local *stats) string { return scenarioDeposedTail(o, idx, local, "c07") })
+		extra("lossy-posts", o.Pick(1, 4), func(idx int, local *stats) string { return scenarioLossyPosts(o, idx, local) })
 		wg.Add(1)
 		go func() {
 			defer wg.Done()
@@ -1248,12 +1271,15 @@ func main() {
 			"scenario_kinds":           st.kinds,
 			"failpoints_fired":         st.crashPoints,
 			"node_restarts":            st.restarts,
-			"leader_announcements_read_from_raft_logs":        st.leaderTerms,
-			"nodes_started_again_after_a_listener_bind_error": cluster.BindRestarts.Load(),
-			"histories_decided_by_porcupine":                  st.decided,
-			"histories_porcupine_unknown":                     st.unknown,
-			"known_finding_hits":                              knownHits,
-			"violation_samples":                               vs,
+			"leader_announcements_read_from_raft_logs":           st.leaderTerms,
+			"peer_posts_delivered_with_response_dropped":         st.droppedResponses,
+			"forwarded_commands_delivered_with_response_dropped": st.droppedProposals,
+			"operations_acknowledged_by_a_cut_off_former_leader": st.cutoffAcks,
+			"nodes_started_again_after_a_listener_bind_error":    cluster.BindRestarts.Load(),
+			"histories_decided_by_porcupine":                     st.decided,
+			"histories_porcupine_unknown":                        st.unknown,
+			"known_finding_hits":                                 knownHits,
+			"violation_samples":                                  vs,
 		},
 		Assumptions: []string{"safety only: a client left without reply (dropped proposal) is an open operation, not a violation", "process crashes (SIGKILL) on a filesystem that keeps what was written; power-loss semantics of the log files are C16's subject",
 			"a cluster that does not serve writes within 90 s after healing is inconclusive, not a violation"}}
@@ -1284,6 +1310,8 @@ func merge(a, b *stats) {
 	a.unknown += b.unknown
 	a.leaderTerms += b.leaderTerms
 	a.cutoffAcks += b.cutoffAcks
+	a.droppedResponses += b.droppedResponses
+	a.droppedProposals += b.droppedProposals
 	for k, v := range b.kinds {
 		a.kinds[k] += v
 	}
